@@ -646,6 +646,9 @@ class SK(object):
     def call_local(self, fn, outer, args, kw):
         env = dict(outer)
         ps = [x.arg for x in fn.args.args]
+        dfl = fn.args.defaults
+        for p, d in zip(ps[len(ps) - len(dfl):], dfl):
+            env[p] = self.ev(d, outer)
         for p, a in zip(ps, args):
             env[p] = a
         for k, v in kw.items():
@@ -674,6 +677,8 @@ def _isinst(sk, n, x, t):
         return isinstance(x, int) and not isinstance(x, bool)
     if isinstance(t, Py) and t.name in ('list', 'tuple'):
         return isinstance(x, list if t.name == 'list' else tuple)
+    if isinstance(t, tuple) and t and t[0] == 'class':
+        return isinstance(x, Bag) and isinstance(x._cls, tuple) and t[1] in sk.m.mro(x._cls)
     if isinstance(t, tuple):
         return any(_isinst(sk, n, x, tt) for tt in t)
     return False
